@@ -120,7 +120,7 @@ KParts(k) ==
                              MkPart("customXml/_rels/item1.xml.rels", "customXml-rels", "default", "")}
     [] k = "header"      -> {MkPart("word/header2.xml", "header", "override", ""),
                              MkPart("word/_rels/header2.xml.rels", "header-rels", "default", ""),
-                             MkPart("word/media/hdrlogo.png", "media", "default", "header-media")}
+                             MkPart("word/media/image2.png", "media", "default", "header-media")}
     [] k = "header1"     -> {MkPart("word/header1.xml", "header1", "override", ""),
                              MkPart("word/_rels/header1.xml.rels", "header1-rels", "default", ""),
                              MkPart("word/media/hdr1logo.png", "media", "default", "header1-media")}
@@ -165,7 +165,7 @@ KOwnRels(k) ==
   CASE k = "customXml" -> {MkRel("customXml/_rels/item1.xml.rels", "rId1",
                              ISlot("customXml-props", "od/customXmlProps", "customXml/itemProps1.xml", "itemProps1.xml"))}
     [] k = "header"    -> {MkRel("word/_rels/header2.xml.rels", "rId1",
-                             ISlot("header-image", "od/image", "word/media/hdrlogo.png", "media/hdrlogo.png")),
+                             ISlot("header-image", "od/image", "word/media/image2.png", "media/image2.png")),
                            MkRel("word/_rels/header2.xml.rels", "rId2",
                              Slot("header-hyperlink", "od/hyperlink", "", "https://example.com/from-header", "External", ""))}
     [] k = "header1"   -> {MkRel("word/_rels/header1.xml.rels", "rId1",
